@@ -236,6 +236,18 @@ def run_case(c, d):
     ref2, _ = ref_periodogram(x, w, n2)
     c.compare('Periodogram.psd-after-NFFT-change-equals-definition', psd2, ref2, TOL, feats,
               scale=float(np.max(ref2)) if np.max(ref2) > 0 else 1.0, detail={'N': N, 'NFFT': n2, 'window': name})
+    # ... and after a window change on the same (already evaluated) object
+    other = 'bartlett' if name != 'bartlett' else 'hamming'
+    try:
+        w3 = window_samples(N, other)
+        p.window = other
+        psd3 = np.asarray(p.psd)
+    except Exception as exc:
+        c.exception('Periodogram', exc, dict(feats, step='window-reassigned'))
+        return
+    ref3, _ = ref_periodogram(x, w3, n2)
+    c.compare('Periodogram.psd-after-window-change-equals-definition', psd3, ref3, TOL, feats,
+              scale=float(np.max(ref3)) if np.max(ref3) > 0 else 1.0, detail={'N': N, 'NFFT': n2, 'window': other})
 
 
 def finish(c):
